@@ -89,6 +89,7 @@ def verify_unit(repo, reg, qualname, timeout_ms=10000, instance=None):
     ex = Exec(repo, reg, bi)
     ex.unit = qualname.split("#")[0]
     ex.current_contract = c
+    ex.prefix_mode = bool(c.prefix)
     p = initial_path(reg)
     assumptions = []
     env = {}
@@ -229,6 +230,14 @@ def verify_unit(repo, reg, qualname, timeout_ms=10000, instance=None):
                                           dict(path=k, text=etxt, exc=exc.cls)))
                 if not c.raise_dirty:
                     atomic_obligations(ex, c, p0, q, qualname, k, obl, is_prop, exc)
+            elif o.kind == "cut":
+                # refusal prefix: whenever a refusal condition holds the call has been refused before this point
+                for ecls, cond in raise_conds.items():
+                    cid = "refused-before-cut:" + ecls
+                    obl.append(Obligation(qualname, cid, list(q.pc), z3.Not(cond), "raises-complete", is_prop(cid) or True,
+                                          dict(path=k, cut=str(o.value),
+                                               text="reaching the unmodelled part (%s) implies not (%s)" % (o.value, c.raises[ecls][0]))))
+                normal_reached = True
             else:
                 raise Unsupported("outcome %s escaped function" % o.kind)
         for so in ex.obligs:
@@ -244,6 +253,8 @@ def verify_unit(repo, reg, qualname, timeout_ms=10000, instance=None):
     res.vacuity["exec_solver_calls"] = ex.solver_calls
     res.vacuity["exec_solver_time"] = round(ex.solver_time, 2)
     res.vacuity["exec_solver_unknown"] = ex.solver_unknown
+    if c.prefix:
+        res.vacuity["prefix_only"] = sorted(set(ex.cuts))[:6]
     res.ex = ex
     res.env = pre.env
     return res
